@@ -348,11 +348,16 @@ func (c *checker) cap() {
 
 // sampleOnce keeps the first case of each outcome class of a group (bounded).
 func (c *checker) sampleOnce(class string, v map[string]any) {
+	g, _ := v["group"].(string)
 	c.smu.Lock()
 	n := c.samples[class]
 	c.samples[class]++
+	ng := c.samples["group:"+g]
+	if n == 0 && ng < 2 {
+		c.samples["group:"+g]++
+	}
 	c.smu.Unlock()
-	if n == 0 {
+	if n == 0 && ng < 2 {
 		c.acc.Sample(v)
 	}
 }
@@ -461,6 +466,7 @@ func (ck *checker) rpcService(group string, ids, servers []string, prefixMenu []
 			return true, nvals, seen, "", live
 		}
 		noFilter := len(cf.prefixes) == 0 && cf.re == nil && len(cf.list) == 0
+		nt := !noFilter || cf.serverRe != nil // a configuration that filters something
 		for _, id := range ids {
 			fp, byPrefix := firstPrefix(id, cf.prefixes)
 			byRe := cf.re != nil && cf.re.match(id)
@@ -475,11 +481,11 @@ func (ck *checker) rpcService(group string, ids, servers []string, prefixMenu []
 				got, nvals, seen, fail, live := lookup(id, srv)
 				if !live {
 					ck.cap()
-					ck.acc.Case(group, caseKey, true, "liveness-cap")
+					ck.acc.Case(group, caseKey, nt, "liveness-cap")
 					continue
 				}
 				if fail != "" {
-					ck.acc.Case(group, caseKey, true, "panic-or-error")
+					ck.acc.Case(group, caseKey, nt, "panic-or-error")
 					ck.violate("rpc-service/panic-or-error", fmt.Sprintf("lookup failed for %s: %s", caseKey, fail), caseKey)
 					continue
 				}
@@ -488,12 +494,12 @@ func (ck *checker) rpcService(group string, ids, servers []string, prefixMenu []
 					if want {
 						out = "declines-matching"
 					}
-					ck.acc.Case(group, caseKey, true, out)
+					ck.acc.Case(group, caseKey, nt, out)
 					ck.violate("rpc-service/"+out, fmt.Sprintf("RpcServiceController{%s}: lookup (service %q, server %q) answered=%v, filters say %v (prefix=%v regex=%v list=%v nofilter=%v serverOK=%v)", cf, id, srv, got, want, byPrefix, byRe, byList, noFilter, serverOK), caseKey)
 					continue
 				}
 				if !got {
-					ck.acc.Case(group, caseKey, true, "declined")
+					ck.acc.Case(group, caseKey, nt, "declined")
 					continue
 				}
 				sawDesc := fmt.Sprintf("values=%d handler-saw=%q", nvals, seen)
@@ -516,12 +522,12 @@ func (ck *checker) rpcService(group string, ids, servers []string, prefixMenu []
 					class = "answered/undefined(strip on, matched by regex or list only): " + sawClass(seen, id)
 				}
 				if !judged {
-					ck.acc.Case(group, caseKey, true, class)
+					ck.acc.Case(group, caseKey, nt, class)
 					ck.sampleOnce(group+class, map[string]any{"group": group, "config": cf.String(), "service_id": id, "server_id": srv, "observed": sawDesc, "judged": false})
 					continue
 				}
 				if len(seen) == 1 && seen[0] == wantSeen && nvals == 1 {
-					ck.acc.Case(group, caseKey, true, class)
+					ck.acc.Case(group, caseKey, nt, class)
 					ck.sampleOnce(group+class, map[string]any{"group": group, "config": cf.String(), "service_id": id, "server_id": srv, "handler_saw": seen[0]})
 					continue
 				}
@@ -532,7 +538,7 @@ func (ck *checker) rpcService(group string, ids, servers []string, prefixMenu []
 				if fp == "" && byPrefix && cf.strip {
 					key += "/empty-prefix"
 				}
-				ck.acc.Case(group, caseKey, true, "wrong: "+key)
+				ck.acc.Case(group, caseKey, nt, "wrong: "+key)
 				ck.violate(key, fmt.Sprintf("RpcServiceController{%s}: lookup (service %q, server %q) is answered, first matching prefix %q, handler must see %q; observed %s", cf, id, srv, fp, wantSeen, sawDesc), caseKey)
 			}
 		}
@@ -548,6 +554,7 @@ func (ck *checker) invoker(ids, servers []string, lists [][]string, le *logrus.E
 		rec := &recInvoker{}
 		ctrl := bifrost_rpc.NewInvokerController(le, nil, info, rec, prefixes)
 		ctx := context.Background()
+		nt := len(prefixes) != 0
 		for _, id := range ids {
 			fp, byPrefix := firstPrefix(id, prefixes)
 			want := len(prefixes) == 0 || byPrefix
@@ -559,7 +566,7 @@ func (ck *checker) invoker(ids, servers []string, lists [][]string, le *logrus.E
 					resolvers, err = ctrl.HandleDirective(ctx, &fakes.Instance{Dir: bifrost_rpc.NewLookupRpcService(id, srv), Ctx: ctx})
 				})
 				if pv != nil || err != nil {
-					ck.acc.Case(group, caseKey, true, "panic-or-error")
+					ck.acc.Case(group, caseKey, nt, "panic-or-error")
 					ck.violate(group+"/panic-or-error", fmt.Sprintf("HandleDirective failed for %s: panic=%v err=%v", caseKey, pv, err), caseKey)
 					continue
 				}
@@ -577,12 +584,12 @@ func (ck *checker) invoker(ids, servers []string, lists [][]string, le *logrus.E
 							}
 						}
 					}
-					ck.acc.Case(group, caseKey, true, out)
+					ck.acc.Case(group, caseKey, nt, out)
 					ck.violate(group+"/"+out, fmt.Sprintf("InvokerController{prefixes=%s}: lookup (service %q, server %q) answered=%v, prefix filter says %v (first matching prefix %q)", q(prefixes), id, srv, got, want, fp), caseKey)
 					continue
 				}
 				if !got {
-					ck.acc.Case(group, caseKey, true, "declined")
+					ck.acc.Case(group, caseKey, nt, "declined")
 					continue
 				}
 				var seen []string
@@ -606,7 +613,7 @@ func (ck *checker) invoker(ids, servers []string, lists [][]string, le *logrus.E
 					class = "answered/stripped-prefix"
 				}
 				if len(seen) == 1 && seen[0] == wantSeen && nvals == 1 {
-					ck.acc.Case(group, caseKey, true, class)
+					ck.acc.Case(group, caseKey, nt, class)
 					ck.sampleOnce(group+class, map[string]any{"group": group, "prefixes": prefixes, "service_id": id, "server_id": srv, "handler_saw": seen[0]})
 					continue
 				}
@@ -614,7 +621,7 @@ func (ck *checker) invoker(ids, servers []string, lists [][]string, le *logrus.E
 				if len(seen) == 0 {
 					key = group + "/answered-but-handler-unreachable"
 				}
-				ck.acc.Case(group, caseKey, true, "wrong: "+key)
+				ck.acc.Case(group, caseKey, nt, "wrong: "+key)
 				ck.violate(key, fmt.Sprintf("InvokerController{prefixes=%s}: lookup (service %q) answered, first matching prefix %q, handler must see %q; observed values=%d handler-saw=%q", q(prefixes), id, fp, wantSeen, nvals, seen), caseKey)
 			}
 		}
@@ -655,6 +662,7 @@ func (ck *checker) httpHandler(paths, methods []string) {
 		defer cancel()
 		_ = ctrl.Execute(ctx)
 		noFilter := len(cf.prefixes) == 0 && cf.re == nil
+		nt := !noFilter
 		for _, p := range paths {
 			fp, byPrefix := firstPrefix(p, cf.prefixes)
 			byRe := cf.re != nil && cf.re.match(p)
@@ -668,7 +676,7 @@ func (ck *checker) httpHandler(paths, methods []string) {
 					resolvers, err = ctrl.HandleDirective(ctx, &fakes.Instance{Dir: bifrost_http.NewLookupHTTPHandler(m, u, "client"), Ctx: ctx})
 				})
 				if pv != nil || err != nil {
-					ck.acc.Case(group, caseKey, true, "panic-or-error")
+					ck.acc.Case(group, caseKey, nt, "panic-or-error")
 					ck.violate(group+"/panic-or-error", fmt.Sprintf("HandleDirective failed for %s: panic=%v err=%v", caseKey, pv, err), caseKey)
 					continue
 				}
@@ -678,12 +686,12 @@ func (ck *checker) httpHandler(paths, methods []string) {
 					if want {
 						out = "declines-matching"
 					}
-					ck.acc.Case(group, caseKey, true, out)
+					ck.acc.Case(group, caseKey, nt, out)
 					ck.violate(group+"/"+out, fmt.Sprintf("HTTPHandlerController{%s}: lookup %s %q answered=%v, filters say %v (prefix=%v regex=%v nofilter=%v)", cf, m, p, got, want, byPrefix, byRe, noFilter), caseKey)
 					continue
 				}
 				if !got {
-					ck.acc.Case(group, caseKey, true, "declined")
+					ck.acc.Case(group, caseKey, nt, "declined")
 					continue
 				}
 				var seen []string
@@ -722,12 +730,12 @@ func (ck *checker) httpHandler(paths, methods []string) {
 					class = "answered/undefined(strip on, matched by regex only): " + sawClass(seen, p)
 				}
 				if !judged {
-					ck.acc.Case(group, caseKey, true, class)
+					ck.acc.Case(group, caseKey, nt, class)
 					ck.sampleOnce(group+class, map[string]any{"group": group, "config": cf.String(), "method": m, "path": p, "observed": sawDesc, "judged": false})
 					continue
 				}
 				if len(seen) == 1 && seen[0] == wantSeen && nvals == 1 {
-					ck.acc.Case(group, caseKey, true, class)
+					ck.acc.Case(group, caseKey, nt, class)
 					ck.sampleOnce(group+class, map[string]any{"group": group, "config": cf.String(), "method": m, "path": p, "handler_saw": seen[0]})
 					continue
 				}
@@ -735,7 +743,7 @@ func (ck *checker) httpHandler(paths, methods []string) {
 				if len(seen) == 0 {
 					key = group + "/answered-but-handler-unreachable"
 				}
-				ck.acc.Case(group, caseKey, true, "wrong: "+key)
+				ck.acc.Case(group, caseKey, nt, "wrong: "+key)
 				ck.violate(key, fmt.Sprintf("HTTPHandlerController{%s}: lookup %s %q is answered, first matching prefix %q, handler must see %q; observed %s", cf, m, p, fp, wantSeen, sawDesc), caseKey)
 			}
 		}
@@ -829,6 +837,7 @@ func (ck *checker) mux(menu []muxPat, paths, methods []string, le *logrus.Entry)
 			evid.Fatal("NewWebSocketHttp(%v): %v", patStrs, err)
 		}
 		ctx := context.Background()
+		nt := len(set) != 0
 		for _, p := range paths {
 			clean := cleanPath(p)
 			treeRedirect := false
@@ -850,18 +859,18 @@ func (ck *checker) mux(menu []muxPat, paths, methods []string, le *logrus.Entry)
 					resolvers, err = ws.ResolveLookupHTTPHandler(ctx, dir)
 				})
 				if pv != nil || err != nil {
-					ck.acc.Case(gF, caseKey, true, "panic-or-error")
+					ck.acc.Case(gF, caseKey, nt, "panic-or-error")
 					ck.violate(gF+"/panic-or-error", fmt.Sprintf("mux matching failed for %s: panic=%v err=%v", caseKey, pv, err), caseKey)
 					continue
 				}
 				answered := len(resolvers) != 0
 				obs := fmt.Sprintf("pattern=%q handler-nil=%v registration-answers=%v", pat, h == nil, answered)
 				if !clean {
-					ck.acc.Case(gF, caseKey, true, "unjudged/path-not-canonical: "+fmt.Sprintf("handler-nil=%v answers=%v", h == nil, answered))
+					ck.acc.Case(gF, caseKey, nt, "unjudged/path-not-canonical: "+fmt.Sprintf("handler-nil=%v answers=%v", h == nil, answered))
 					continue
 				}
 				if treeRedirect {
-					ck.acc.Case(gF, caseKey, true, "unjudged/trailing-slash-redirect-candidate")
+					ck.acc.Case(gF, caseKey, nt, "unjudged/trailing-slash-redirect-candidate")
 					continue
 				}
 				// reference match sets
@@ -884,7 +893,7 @@ func (ck *checker) mux(menu []muxPat, paths, methods []string, le *logrus.Entry)
 				if m == "" {
 					// "empty method = any": defined only where both readings agree
 					if (len(strict) != 0) != (len(anyMethod) != 0) {
-						ck.acc.Case(gF, caseKey, true, "unjudged/empty-method-vs-method-specific-pattern: "+fmt.Sprintf("pattern=%q answers=%v", pat, answered))
+						ck.acc.Case(gF, caseKey, nt, "unjudged/empty-method-vs-method-specific-pattern: "+fmt.Sprintf("pattern=%q answers=%v", pat, answered))
 						ck.sampleOnce(gF+"emptymethod", map[string]any{"group": gF, "patterns": patStrs, "method": m, "path": p, "observed": obs, "judged": false})
 						continue
 					}
@@ -899,7 +908,7 @@ func (ck *checker) mux(menu []muxPat, paths, methods []string, le *logrus.Entry)
 				// function level: the reported pattern
 				switch {
 				case judgePattern && pat != wantPat:
-					ck.acc.Case(gF, caseKey, true, "wrong-pattern")
+					ck.acc.Case(gF, caseKey, nt, "wrong-pattern")
 					ck.violate(gF+"/wrong-pattern", fmt.Sprintf("MatchServeMuxPattern(patterns %s, %s %q) reports pattern %q, the matching pattern is %q", q(patStrs), m, p, pat, wantPat), caseKey)
 				case wantMatch:
 					// the returned handler must be the one registered for the pattern and see the path
@@ -918,25 +927,25 @@ func (ck *checker) mux(menu []muxPat, paths, methods []string, le *logrus.Entry)
 					}
 					wantReached := fmt.Sprintf("%s saw %q;", pat, []string{p})
 					if reached != wantReached {
-						ck.acc.Case(gF, caseKey, true, "wrong-handler")
+						ck.acc.Case(gF, caseKey, nt, "wrong-handler")
 						ck.violate(gF+"/wrong-handler", fmt.Sprintf("MatchServeMuxPattern(patterns %s, %s %q): pattern %q, but invoking the returned handler gives [%s]", q(patStrs), m, p, pat, reached), caseKey)
 					} else {
-						ck.acc.Case(gF, caseKey, true, "match")
+						ck.acc.Case(gF, caseKey, nt, "match")
 						ck.sampleOnce(gF+"match", map[string]any{"group": gF, "patterns": patStrs, "method": m, "path": p, "pattern": pat})
 					}
 				default:
-					ck.acc.Case(gF, caseKey, true, fmt.Sprintf("no-match: pattern=%q handler-nil=%v", pat, h == nil))
+					ck.acc.Case(gF, caseKey, nt, fmt.Sprintf("no-match: pattern=%q handler-nil=%v", pat, h == nil))
 					ck.sampleOnce(gF+"nomatch", map[string]any{"group": gF, "patterns": patStrs, "method": m, "path": p, "observed": obs})
 				}
 				// registration level: answered exactly when a pattern matches
 				switch {
 				case answered == wantMatch:
-					ck.acc.Case(gR, caseKey, true, fmt.Sprintf("answered=%v", answered))
+					ck.acc.Case(gR, caseKey, nt, fmt.Sprintf("answered=%v", answered))
 				case answered:
-					ck.acc.Case(gR, caseKey, true, "answers-nonmatching")
+					ck.acc.Case(gR, caseKey, nt, "answers-nonmatching")
 					ck.violate(gR+"/answers-nonmatching-lookup", fmt.Sprintf("WebSocketHttp{http_patterns=%s} answers the lookup %s %q although no configured pattern matches it (MatchServeMuxPattern: %s)", q(patStrs), m, p, obs), caseKey)
 				default:
-					ck.acc.Case(gR, caseKey, true, "declines-matching")
+					ck.acc.Case(gR, caseKey, nt, "declines-matching")
 					ck.violate(gR+"/declines-matching-lookup", fmt.Sprintf("WebSocketHttp{http_patterns=%s} does not answer the lookup %s %q although pattern %q matches it", q(patStrs), m, p, wantPat), caseKey)
 				}
 			}
@@ -946,7 +955,7 @@ func (ck *checker) mux(menu []muxPat, paths, methods []string, le *logrus.Entry)
 
 func TestC35(t *testing.T) {
 	run := evid.Start("C35", "exploration")
-	acc := enum.NewAcc(run, "four groups. rpc-service: every RpcServiceController configuration (prefix list of <=2 from {\"\",a,a/,ab,b} x regex {none,^a,b$,.*} x service list subset of {a,ab} x server regex {none,^s$} x strip) x every non-empty service ID of length <=3 over {a,b,/,.} x server ID {\"\",s,t}; invoker: every InvokerController prefix list x the same lookups; http: every HTTPHandlerController configuration (prefix list of <=2 from {\"\",a,a/,ab,b,/,/a} x regex {none,^a,b$,.*,^/a} x strip) x every path of length <=3 over the alphabet x method {\"\",GET,POST}; mux: every subset of 6 ServeMux patterns x paths (all strings <=3 and \"/\"+string) x method {\"\",GET,POST,HEAD}. Each case calls the real HandleDirective with a fake directive instance, resolves the returned resolver and invokes the value with a recording endpoint. All cases are non-trivial (every case has a filter decision); distinct by (group, configuration, lookup)")
+	acc := enum.NewAcc(run, "four groups. rpc-service: every RpcServiceController configuration (prefix list of <=2 from {\"\",a,a/,ab,b} x regex {none,^a,b$,.*} x service list subset of {a,ab} x server regex {none,^s$} x strip) x every non-empty service ID of length <=3 over {a,b,/,.} x server ID {\"\",s,t}; invoker: every InvokerController prefix list x the same lookups; http: every HTTPHandlerController configuration (prefix list of <=2 from {\"\",a,a/,ab,b,/,/a} x regex {none,^a,b$,.*,^/a} x strip) x every path of length <=3 over the alphabet x method {\"\",GET,POST}; mux: every subset of 6 ServeMux patterns x paths (all strings <=3 and \"/\"+string) x method {\"\",GET,POST,HEAD}. Each case calls the real HandleDirective with a fake directive instance, resolves the returned resolver and invokes the value with a recording endpoint. A case is non-trivial if its configuration filters something (not the match-everything configuration / the empty pattern set); distinct by (group, configuration, lookup)")
 	ck := &checker{run: run, acc: acc, samples: map[string]int{}, viols: map[string]*viol{}}
 
 	log := logrus.New()
